@@ -177,6 +177,13 @@ def endOf (log : List Mark) (k : Nat) : Option Nat :=
 def failOf (log : List Mark) (k : Nat) : Option Nat :=
   log.findSome? (fun | .failed j t => if j = k then some t else none | _ => none)
 
+/-- time of the `k`-th call of the delegate, whether it started a pass or failed -/
+def callOf (log : List Mark) (k : Nat) : Option Nat :=
+  log.findSome? (fun
+    | .started j t => if j = k then some t else none
+    | .failed j t => if j = k then some t else none
+    | _ => none)
+
 def countProc (evs : List Ev) : Nat := (evs.filter (fun | .proc _ => true | _ => false)).length
 
 end SxVerif.Live
